@@ -94,6 +94,11 @@ func runEnumCase(t *testing.T, r *rand.Rand, ranks [4]int, nowPos int, variant s
 	w := vkit.NewWorld(vkit.WorldConfig{StorageWrapper: wrapper, RootOpts: cfg.Opts()})
 	defer w.Close()
 	gap := logUniform(r, time.Minute, 400*24*time.Hour)
+	if r.Intn(3) == 0 {
+		// instants a fraction of a second apart: the decision must be taken at full
+		// resolution (a call may land in the same wall-clock second as a boundary)
+		gap = time.Duration(150+r.Intn(800)) * time.Millisecond
+	}
 	c := enumCase{Ranks: ranks, NowPos: nowPos, Variant: variant, Wrapper: wrapper, Config: cfg.String(), Gap: gap.String()}
 	raw := w.RawRoots()
 	now := time.Now()
